@@ -256,12 +256,15 @@ func (s *Server) ListenAndServeTLS() error {
 // Close returns any error returned from closing the server's underlying
 // listener(s).
 func (s *Server) Close() error {
+	s.locker.Lock()
 	select {
 	case <-s.done:
+		s.locker.Unlock()
 		return ErrServerClosed
 	default:
 		close(s.done)
 	}
+	s.locker.Unlock()
 
 	var err error
 	s.locker.Lock()
@@ -287,12 +290,15 @@ func (s *Server) Close() error {
 // Shutdown returns the context's error, otherwise it returns any
 // error returned from closing the Server's underlying Listener(s).
 func (s *Server) Shutdown(ctx context.Context) error {
+	s.locker.Lock()
 	select {
 	case <-s.done:
+		s.locker.Unlock()
 		return ErrServerClosed
 	default:
 		close(s.done)
 	}
+	s.locker.Unlock()
 
 	var err error
 	s.locker.Lock()
